@@ -46,6 +46,21 @@ static void op_bytes(std::vector<uint8_t> &v, size_t n, const Op &op, uint64_t t
     case 2: memset(v.data(), 0x80, n); break;
     case 3: memset(v.data(), 0x01, n); break;
     case 4: fill_bytes(v.data(), n, op.dseed, tag); for (size_t i = 16; i < n; i++) v[i] = v[i % 16]; break; // period-16 data
+    case 5: case 6: { // dictionary: constants of the library itself (and complement / byte swap) at 16-byte block starts
+        fill_bytes(v.data(), n, op.dseed, tag);
+        if (g_dict.empty() || n < 4) break;
+        uint64_t h = mix2(op.dseed, tag ^ 0xD1C7);
+        for (size_t off = 0; off + 4 <= n; off += 16) {
+            h = mix2(h, off);
+            if ((h & 3) == 3 && off) continue;
+            uint32_t tok = g_dict[(h >> 8) % g_dict.size()];
+            if (h & 4) tok = ~tok;
+            if (h & 16) tok = __builtin_bswap32(tok);
+            size_t at = off + (((h >> 5) & 7) == 7 ? 12 : 0);   // block start, sometimes the last word of the block
+            if (at + 4 <= n) memcpy(v.data() + at, &tok, 4);
+        }
+        break;
+    }
     default: fill_bytes(v.data(), n, op.dseed, tag); break;
     }
 }
